@@ -174,3 +174,17 @@ Theorem C07_sign_open_roundtrip_ctrl_name_refuted :
     open unit V msg known = Err Malformed.
 Proof. exact sign_open_roundtrip_ctrl_name_refuted. Qed.
 Print Assumptions C07_sign_open_roundtrip_ctrl_name_refuted.
+
+(* the hypotheses of C07_open_bad_known_sig_fails are satisfiable: "hi\n\n— a AAAAAQc=\n"
+   with key a+00000001 known and a verifier that rejects *)
+Example C07_bad_known_sig_instance :
+  let V := fun (_ : unit) (_ _ : str) => false in
+  let known := verifier_list unit [{| v_name := B "a"; v_hash := 1; v_id := tt |}] in
+  let line := note_sigPrefix ++ B "a AAAAAQc=" in
+  let msg := B "hi" ++ [10; 10] ++ line ++ [10] in
+  last_index note_sigSplit msg = Some 2%nat /\
+  sig_lines (skipn 4 msg) = [] ++ line :: [] /\
+  parse_sig_line line = Some (B "a AAAAAQc=", B "a", 1, [7], B "AAAAAQc=") /\
+  lookup unit known (B "a") 1 = LUnique {| v_name := B "a"; v_hash := 1; v_id := tt |} /\
+  open unit V msg known = Err (InvalidSignature (B "a") 1).
+Proof. vm_compute. repeat split; reflexivity. Qed.
